@@ -1110,4 +1110,76 @@ theorem compile_correct_partial (fuel : Nat) (opts : Fopts) (c : CState) (hopts 
 
 end Compile
 
+/-! ## Operand-width bounds (session 4c)
+
+Every place where compile.c / specials.c / emit.c / cfuns.c select a short instruction form or accept a value for an
+operand field by comparing with a literal.  The numbers are `Gen/Compile.lean`'s: the literal AND the comparison
+operator as written in the current source (`i <= 0x100` regenerates the exclusive bound 257), and the width of the
+field from the cast / shift of the same statement.  The obligations say that what the Lean VM's decoder (`fC`, `fCS`,
+`fES` of `Bytecode/Exec`) reads back from the instruction word is the value the compiler meant. -/
+section OperandBounds
+open JanetModel.Bytecode.Exec JanetModel.Gen.Compile
+
+/-- `destructure()`: every pattern index `i` for which the compiler chooses `GET_INDEX dest src (uint8_t) i` is read back
+by the VM as `i` (with the source's bound `i < 0x100`; an inclusive bound puts index 256 into the 8-bit field as 0). -/
+theorem destructure_short_index_fits (op a b i : Nat) (hop : op < 256) (ha : a < 256) (hb : b < 256)
+    (hi : i < destructureShortIndexBound) :
+    i % 2 ^ destructureShortIndexBits = i ∧ destructureShortIndexBits = emit2sRestBits ∧
+    fC (op + a * 256 + b * 65536 + (i % 2 ^ destructureShortIndexBits) * 16777216) = i := by
+  have h1 : destructureShortIndexBound ≤ 2 ^ destructureShortIndexBits := by decide
+  have h2 : (2 : Nat) ^ destructureShortIndexBits = 256 := by decide
+  have h3 : i < 256 := by omega
+  refine ⟨by rw [h2]; omega, by decide, ?_⟩
+  rw [h2]; unfold fC; omega
+
+/-- the short form is chosen for EVERY index the field can carry (tightness; not needed for correctness) -/
+theorem destructure_short_index_tight : destructureShortIndexBound = 2 ^ destructureShortIndexBits := by decide
+
+/-- `can_be_imm` (cfuns.c): an integer accepted for an `*_IMMEDIATE` form is read back by the VM (`fCS`, sign-extended
+8-bit C field) unchanged. -/
+theorem imm8_fits (op a b : Nat) (z : Int) (hop : op < 256) (ha : a < 256) (hb : b < 256) (hlo : immMin ≤ z) (hhi : z ≤ immMax) :
+    fCS (op + a * 256 + b * 65536 + (z % 2 ^ immBits).toNat * 16777216) = z := by
+  have h2 : ((2 : Int) ^ immBits) = 256 := by decide
+  have hl : (-128 : Int) ≤ z := hlo
+  have hh : z ≤ 127 := hhi
+  rw [h2]
+  have hm : (z % 256).toNat < 256 := by omega
+  have hc : fC (op + a * 256 + b * 65536 + (z % 256).toNat * 16777216) = (z % 256).toNat := by unfold fC; omega
+  unfold fCS sext; rw [hc]
+  split <;> omega
+
+/-- `janetc_loadconst`: a number accepted for `LOAD_INTEGER` is read back by the VM (`fES`, sign-extended 16-bit field)
+unchanged. -/
+theorem load_integer_fits (op a : Nat) (z : Int) (hop : op < 256) (ha : a < 256) (hlo : loadIntMin ≤ z) (hhi : z ≤ loadIntMax) :
+    fES (op + a * 256 + (z % 2 ^ loadIntBits).toNat * 65536) = z := by
+  have h2 : ((2 : Int) ^ loadIntBits) = 65536 := by decide
+  have hl : (-32768 : Int) ≤ z := hlo
+  have hh : z ≤ 32767 := hhi
+  rw [h2]
+  have hm : (z % 65536).toNat < 65536 := by omega
+  have hc : fE (op + a * 256 + (z % 65536).toNat * 65536) = (z % 65536).toNat := by unfold fE; omega
+  unfold fES sext; rw [hc]
+  split <;> omega
+
+/-- the remaining bounds: a register used as an 8-bit operand without a temporary, a hinted target, a captured local's
+index, a far register, a constant index, and the jump offsets accepted by `janetc_emit_sl` / `janetc_if` /
+`janetc_while` fit the fields (8 / 16 bits unsigned, 16 / 24 bits signed) they are stored in. -/
+theorem operand_bounds_fit_fields :
+    nearSlotBound ≤ 2 ^ 8 ∧ nearHintBound ≤ nearSlotBound ∧ upvalueIndexBound ≤ 2 ^ 8 ∧ farRegisterBound ≤ 2 ^ 16 ∧
+    constIndexBound ≤ 2 ^ 16 ∧
+    (-(2 ^ 15 : Int) ≤ labelJumpMin ∧ labelJumpMax < 2 ^ 15) ∧ ifCondJumpMax < 2 ^ 15 ∧ whileCondJumpMax < 2 ^ 15 ∧
+    ifJumpMax < 2 ^ 23 ∧ whileJumpMax < 2 ^ 23 := by decide
+
+/-- non-vacuity: index 255 is carried by the short form and read back as 255; 127 / -128 and 32767 / -32768 likewise -/
+example : fC (0x1D + 3 * 256 + 4 * 65536 + (255 % 2 ^ destructureShortIndexBits) * 16777216) = 255 :=
+  (destructure_short_index_fits 0x1D 3 4 255 (by decide) (by decide) (by decide) (by decide)).2.2
+example : fCS (7 + 1 * 256 + 2 * 65536 + ((-128 : Int) % 2 ^ immBits).toNat * 16777216) = -128 :=
+  imm8_fits 7 1 2 (-128) (by decide) (by decide) (by decide) (by decide) (by decide)
+example : fES (9 + 1 * 256 + ((32767 : Int) % 2 ^ loadIntBits).toNat * 65536) = 32767 :=
+  load_integer_fits 9 1 32767 (by decide) (by decide) (by decide) (by decide)
+/-- the defect the bound guards against: index 256 in the 8-bit field is read back as 0 -/
+example : fC (0x1D + 3 * 256 + 4 * 65536 + (256 % 2 ^ 8) * 16777216) = 0 := by decide
+
+end OperandBounds
+
 end JanetModel.Props.C02
